@@ -39,6 +39,9 @@ type c13Tx struct {
 	Stmts   []c13Stmt
 	TxID    uint64
 	Outcome string // committed | rolledback | failed
+	// layer B: what COMMIT reported for the whole transaction
+	HasTotal bool
+	Total    int
 }
 
 func c13Body(r *simcore.Run) {
@@ -256,6 +259,7 @@ func c13ReplayInner(state map[int]int, t *c13Tx, apply bool) string {
 		work[k] = v
 	}
 	var saved map[int]int
+	total := 0
 	for i, st := range t.Stmts {
 		if st.Err != "" && st.Kind != "rb" {
 			// a failed statement ends the transaction (the harness cancels it)
@@ -267,6 +271,7 @@ func c13ReplayInner(state map[int]int, t *c13Tx, apply bool) string {
 				return fmt.Sprintf("statement %d (%s) succeeded although the key exists in the serial execution", i, st.SQL)
 			}
 			work[st.ID] = st.V
+			total++
 			if st.Affected >= 0 && st.Affected != 1 {
 				return fmt.Sprintf("statement %d (%s) reports %d affected rows, expected 1", i, st.SQL, st.Affected)
 			}
@@ -276,6 +281,7 @@ func c13ReplayInner(state map[int]int, t *c13Tx, apply bool) string {
 				work[st.ID] = st.V
 				n = 1
 			}
+			total += n
 			if st.Affected >= 0 && st.Affected != n {
 				return fmt.Sprintf("statement %d (%s) reports %d affected rows, the serial execution updates %d", i, st.SQL, st.Affected, n)
 			}
@@ -285,6 +291,7 @@ func c13ReplayInner(state map[int]int, t *c13Tx, apply bool) string {
 				delete(work, st.ID)
 				n = 1
 			}
+			total += n
 			if st.Affected >= 0 && st.Affected != n {
 				return fmt.Sprintf("statement %d (%s) reports %d affected rows, the serial execution deletes %d", i, st.SQL, st.Affected, n)
 			}
@@ -295,6 +302,8 @@ func c13ReplayInner(state map[int]int, t *c13Tx, apply bool) string {
 				}
 				return fmt.Sprintf("statement %d (%s) returned %s, the serial execution gives %s", i, st.SQL, got, c13State(work))
 			}
+		case "log":
+			total += st.V // rows appended to the second table
 		case "sp":
 			saved = map[int]int{}
 			for k, v := range work {
@@ -308,6 +317,9 @@ func c13ReplayInner(state map[int]int, t *c13Tx, apply bool) string {
 				}
 			}
 		}
+	}
+	if t.HasTotal && t.Total != total {
+		return fmt.Sprintf("COMMIT reports %d affected rows, the serial execution of the transaction affects %d", t.Total, total)
 	}
 	if apply {
 		for k := range state {
